@@ -5,7 +5,7 @@
     contain the assumptions (`specCount`);
   * marking strategy (`marking.rs`): recompute only the ancestors of the touched leaves, with the
     divide trick for and-nodes with few marked children - equal to the default pass;
-  * `execute_query` (dispatch on the length of the assumption list, core shortcut) is exact.
+  `execute_query` itself is in `Proofs/ExecQuery.lean`.
 -/
 import DdnnfVerif.Model.Query
 import DdnnfVerif.Proofs.Keystone
@@ -356,9 +356,9 @@ theorem hasLit_ne_zero (nodes : List NType) (hnz : LitNonzero nodes) (l : Int)
   obtain ⟨j, hj, he⟩ := (hasLit_iff nodes l).mp h
   exact hnz j hj l he
 
-theorem mem_coreOf (nodes : List NType) (n : Nat) (l : Int) :
-    l ∈ coreOf nodes n ↔ l.natAbs ≤ n ∧ hasLit nodes l = true ∧ hasLit nodes (-l) = false := by
-  unfold coreOf
+theorem mem_coreSynOf (nodes : List NType) (n : Nat) (l : Int) :
+    l ∈ coreSynOf nodes n ↔ l.natAbs ≤ n ∧ hasLit nodes l = true ∧ hasLit nodes (-l) = false := by
+  unfold coreSynOf
   rw [List.mem_filter, List.mem_map]
   simp only [List.mem_range, Bool.and_eq_true, Bool.not_eq_true']
   constructor
@@ -367,10 +367,15 @@ theorem mem_coreOf (nodes : List NType) (n : Nat) (l : Int) :
   · rintro ⟨hn, h1, h2⟩
     exact ⟨⟨(l + n).toNat, by omega, by omega⟩, h1, h2⟩
 
-theorem core_sound (nodes : List NType) (n : Nat) (h : WF nodes n) :
-    ∀ l ∈ coreOf nodes n, ∀ c ∈ models nodes (rootIx nodes), l ∈ c := by
+/-- a list of literals that are contained in every listed model of the root -/
+def CoreSound (core : List Int) (nodes : List NType) : Prop :=
+  ∀ l ∈ core, ∀ c ∈ models nodes (rootIx nodes), l ∈ c
+
+/-- the syntactic core (leaf exists, complementary leaf does not) is sound -/
+theorem coreSyn_sound (nodes : List NType) (n : Nat) (h : WF nodes n) :
+    CoreSound (coreSynOf nodes n) nodes := by
   intro l hl c hc
-  obtain ⟨hn, h1, h2⟩ := (mem_coreOf nodes n l).mp hl
+  obtain ⟨hn, h1, h2⟩ := (mem_coreSynOf nodes n l).mp hl
   have hcomp := root_models_complete nodes n h c hc
   rcases hcomp.mem_or (hasLit_ne_zero nodes h.litnz l h1) hn with h3 | h3
   · exact h3
@@ -511,135 +516,5 @@ theorem marker_eq_countA (nodes : List NType) (negs : List Int) :
   apply MKRel.sel_eq
   exact table_rel MKRel ⟨0, false, 0⟩ 0 (fMarker negs) (fCountA negs) (by simp [MKRel])
     (fMarker_rel negs) nodes (rootIx nodes)
-
-
-/-! ## `execute_query` -/
-
-/-- if the complement of an assumption is contained in every listed model, nothing is counted -/
-theorem specCount_eq_zero_of_neg (nodes : List NType) (n : Nat) (h : WF nodes n) (A : List Int)
-    (hA : InRange A n) (f : Int) (hf : f ∈ A)
-    (hall : ∀ c ∈ models nodes (rootIx nodes), -f ∈ c) : specCount nodes n A = 0 := by
-  rw [specCount_eq_filter nodes n h A hA, List.length_eq_zero_iff, List.filter_eq_nil_iff]
-  intro c hc hall'
-  rw [List.all_eq_true] at hall'
-  have h1 : f ∈ c := by simpa using hall' f hf
-  exact (root_models_complete nodes n h c hc).not_both h1 (hall c hc)
-
-/-- a literal whose complementary leaf does not exist is contained in every listed model -/
-theorem mem_of_not_hasLit_neg (nodes : List NType) (n : Nat) (h : WF nodes n) (a : Int)
-    (ha0 : a ≠ 0) (han : a.natAbs ≤ n) (hno : hasLit nodes (-a) = false) :
-    ∀ c ∈ models nodes (rootIx nodes), a ∈ c := by
-  intro c hc
-  rcases (root_models_complete nodes n h c hc).mem_or ha0 han with h1 | h1
-  · exact h1
-  · have := models_hasLit nodes _ c hc _ h1
-    rw [hno] at this
-    cases this
-
-/-- the cached count is exact when every assumption is contained in every listed model -/
-theorem count_eq_specCount_of_all (nodes : List NType) (n : Nat) (h : WF nodes n) (A : List Int)
-    (hA : InRange A n) (hall : ∀ a ∈ A, ∀ c ∈ models nodes (rootIx nodes), a ∈ c) :
-    count nodes (rootIx nodes) = specCount nodes n A := by
-  rw [← countA_nil]
-  apply countA_negs_exact nodes n h A hA
-  · intro l hl; cases hl
-  · intro a ha; exact Or.inr (hall a ha)
-
-/-- the general branch of `execute_query` (both strategies) -/
-theorem execQuery_general (nodes : List NType) (n : Nat) (h : WF nodes n) (A : List Int)
-    (hA : InRange A n) :
-    (if A.any (fun f => (coreOf nodes n).contains (-f)) then 0
-      else
-        if A.length ≤ 20 then
-          if (((A.filter (fun f => !(coreOf nodes n).contains f)).map (fun f => -f)).filter
-              (hasLit nodes)).isEmpty then count nodes (rootIx nodes)
-          else markerCount nodes
-            (((A.filter (fun f => !(coreOf nodes n).contains f)).map (fun f => -f)).filter
-              (hasLit nodes))
-        else
-          countA nodes ((A.filter (fun f => !(coreOf nodes n).contains f)).map (fun f => -f))
-            (rootIx nodes))
-      = specCount nodes n A := by
-  by_cases hany : A.any (fun f => (coreOf nodes n).contains (-f)) = true
-  · rw [if_pos hany]
-    rw [List.any_eq_true] at hany
-    obtain ⟨f, hf, hcore⟩ := hany
-    exact (specCount_eq_zero_of_neg nodes n h A hA f hf
-      (core_sound nodes n h (-f) (by simpa using hcore))).symm
-  · rw [if_neg hany]
-    -- the two candidate sets of zeroed leaves
-    have hsub1 : ∀ l ∈ (A.filter (fun f => !(coreOf nodes n).contains f)).map (fun f => -f),
-        -l ∈ A := by
-      intro l hl
-      rw [List.mem_map] at hl
-      obtain ⟨a, ha, rfl⟩ := hl
-      rw [Int.neg_neg]
-      exact (List.mem_filter.mp ha).1
-    have hcov2 : ∀ a ∈ A,
-        -a ∈ ((A.filter (fun f => !(coreOf nodes n).contains f)).map (fun f => -f)).filter
-            (hasLit nodes)
-          ∨ ∀ c ∈ models nodes (rootIx nodes), a ∈ c := by
-      intro a ha
-      by_cases hc : a ∈ coreOf nodes n
-      · exact Or.inr (core_sound nodes n h a hc)
-      · by_cases hl : hasLit nodes (-a) = true
-        · left
-          rw [List.mem_filter]
-          refine ⟨List.mem_map.mpr ⟨a, List.mem_filter.mpr ⟨ha, by simpa using hc⟩, rfl⟩, hl⟩
-        · exact Or.inr (mem_of_not_hasLit_neg nodes n h a (hA a ha).1 (hA a ha).2
-            (by simpa using hl))
-    by_cases hlen : A.length ≤ 20
-    · rw [if_pos hlen]
-      have hmain := countA_negs_exact nodes n h A hA _
-        (fun l hl => hsub1 l (List.mem_filter.mp hl).1) hcov2
-      by_cases hemp : (((A.filter (fun f => !(coreOf nodes n).contains f)).map
-          (fun f => -f)).filter (hasLit nodes)).isEmpty = true
-      · rw [if_pos hemp]
-        rw [List.isEmpty_iff] at hemp
-        rw [hemp, countA_nil] at hmain
-        exact hmain
-      · rw [if_neg hemp, marker_eq_countA]
-        exact hmain
-    · rw [if_neg hlen]
-      apply countA_negs_exact nodes n h A hA _ hsub1
-      intro a ha
-      rcases hcov2 a ha with h1 | h1
-      · exact Or.inl (List.mem_filter.mp h1).1
-      · exact Or.inr h1
-
-theorem execQuery_exact (nodes : List NType) (n : Nat) (h : WF nodes n) (A : List Int)
-    (hA : InRange A n) : execQuery nodes n A = specCount nodes n A := by
-  match A, hA with
-  | [], _ => exact count_eq_specCount nodes n h
-  | [f], hA =>
-    have hf := hA f (List.mem_singleton.mpr rfl)
-    show (if (coreOf nodes n).contains f then count nodes (rootIx nodes)
-      else if (coreOf nodes n).contains (-f) then 0
-      else if hasLit nodes (-f) then markerCount nodes [-f] else count nodes (rootIx nodes))
-      = specCount nodes n [f]
-    by_cases h1 : (coreOf nodes n).contains f = true
-    · rw [if_pos h1]
-      apply count_eq_specCount_of_all nodes n h [f] hA
-      intro a ha
-      rw [List.mem_singleton] at ha
-      subst ha
-      exact core_sound nodes n h a (by simpa using h1)
-    · rw [if_neg h1]
-      by_cases h2 : (coreOf nodes n).contains (-f) = true
-      · rw [if_pos h2]
-        exact (specCount_eq_zero_of_neg nodes n h [f] hA f (List.mem_singleton.mpr rfl)
-          (core_sound nodes n h (-f) (by simpa using h2))).symm
-      · rw [if_neg h2]
-        by_cases h3 : hasLit nodes (-f) = true
-        · rw [if_pos h3, marker_eq_countA]
-          exact countA_exact nodes n h [f] hA
-        · rw [if_neg h3]
-          apply count_eq_specCount_of_all nodes n h [f] hA
-          intro a ha
-          rw [List.mem_singleton] at ha
-          subst ha
-          exact mem_of_not_hasLit_neg nodes n h a hf.1 hf.2 (by simpa using h3)
-  | f :: g :: t, hA => exact execQuery_general nodes n h (f :: g :: t) hA
-
 
 end Ddnnf
